@@ -33,8 +33,6 @@ inductive TErr where
   | valueError
   deriving DecidableEq, Repr
 
-def natStr (n : Nat) : Str := (Nat.repr n).toList
-
 /-- one step of `get_xpath`: `/@{field}[{findex or '0'}]{Class}` -/
 def xpathStep (field : Str) (idx : Option Nat) (cls : Str) : Str :=
   ['/', '@'] ++ field ++ ['['] ++ natStr (idx.getD 0) ++ [']'] ++ cls
